@@ -103,7 +103,7 @@ def cases(rng, tier):
     if tier == "thorough":
         for t in itertools.product(ATOMS, repeat=3):
             yield {"s": "".join(t)}
-    n = 6000 if tier == "quick" else 60000
+    n = 30000 if tier == "quick" else 120000
     for _ in range(n):
         k = rng.randint(3, 12)
         yield {"s": "".join(rng.choice(ATOMS) for _ in range(k))}
@@ -112,7 +112,7 @@ def cases(rng, tier):
         yield {"bytes": a}
     for a, b in itertools.product(BYTE_ATOMS, repeat=2):
         yield {"bytes": a + b}
-    m = 2000 if tier == "quick" else 30000
+    m = 10000 if tier == "quick" else 50000
     for _ in range(m):
         k = rng.randint(3, 6)
         bs = []
